@@ -188,8 +188,8 @@ structure LiveP (P : Program) (depth : Node → Nat) : Prop where
   casePlain : ∀ e ∈ P.g.edges, e.case.isSome = true → P.g.isSwitch e.u = false
   /-- the reduced DAGs the engine builds — up to the output, up to a case node — end in their destination, are closed
   under dependencies, and contain only nodes at most as deep as the destination -/
-  dagsOK   : ∀ (s : St) (dst : Node), (dst = P.g.output ∨ ∃ e ∈ P.g.edges, e.u = dst ∧ e.case.isSome = true) →
-    ∃ d, reducedRef P s P.g.input dst false false false = some d ∧
+  dagsOK   : ∀ (s : St) (dst : Node) (nst : Bool), (dst = P.g.output ∨ ∃ e ∈ P.g.edges, e.u = dst ∧ e.case.isSome = true) →
+    ∃ d, reducedRef P s P.g.input dst false false nst = some d ∧
     d.dest = some dst ∧ dst ∈ d.nodes ∧ (∀ m ∈ d.nodes, ∀ u ∈ basePreds P m, u ∈ d.nodes) ∧ ∀ x ∈ d.nodes, depth x ≤ depth dst
 
 /-! ### the static part: a state that satisfies `Struct` is not stuck -/
